@@ -603,8 +603,12 @@ def rebase(snapshot, ghost_before, current):
         sm = difflib.SequenceMatcher(a=strs(snapshot), b=strs(current), autojunk=False)
     # a consistently renamed local (every `old` became `new`, `old` no longer occurs) is renamed in the ghost text too
     ren = {}; bad = set()
+    KW_ = {'let', 'mut', 'if', 'else', 'for', 'while', 'loop', 'in', 'match', 'return', 'break', 'continue', 'as', 'fn', 'ref', 'move', 'self', 'Self', 'true', 'false', 'unsafe', 'where', 'impl', 'dyn', 'const', 'static'}
     for tag, a0, a1, b0, b1 in sm.get_opcodes():
         if tag == 'replace' and a1 - a0 == b1 - b0:
+            # a rename run replaces identifiers by identifiers and nothing else: `* bufbits -=` -> `let codeword_len =` is an
+            # inserted statement that happens to have the same length, not a rename of bufbits
+            if not all(str(x) == str(y) or (x.isidentifier() and y.isidentifier() and str(x) not in KW_ and str(y) not in KW_) for x, y in zip(snapshot[a0:a1], current[b0:b1])): continue
             for x, y in zip(snapshot[a0:a1], current[b0:b1]):
                 if x.isidentifier() and y.isidentifier() and not x[0].isupper():
                     if ren.get(str(x), str(y)) != str(y): bad.add(str(x))
